@@ -213,6 +213,8 @@ static void print_handle(KSI_AsyncHandle *h) {
 	}
 }
 
+static char cred_user[1024] = "anon", cred_key[70000] = "anon";
+
 int main(void) {
 	char *line = NULL; size_t cap = 0; char **tok = malloc(sizeof(char *) * 5000);
 	setvbuf(stdout, NULL, _IOFBF, 1 << 16);
@@ -221,12 +223,29 @@ int main(void) {
 		line[strcspn(line, "\n")] = 0;
 		n = hx_split(line, tok, 5000);
 		if (n == 0) continue;
-		if (!strcmp(tok[0], "NEW")) {
+		if (!strcmp(tok[0], "CRED")) {
+			/* CRED <loginHex> <keyHex>: credentials used by the following NEW / BNEW / HANEW */
+			size_t l1, l2; unsigned char *a = hx_dec(tok[1], &l1), *b = hx_dec(tok[2], &l2);
+			if (l1 < sizeof(cred_user) && l2 < sizeof(cred_key)) { memcpy(cred_user, a, l1); cred_user[l1] = 0; memcpy(cred_key, b, l2); cred_key[l2] = 0; }
+			free(a); free(b); printf("R cred user=%zu key=%zu\n", strlen(cred_user), strlen(cred_key));
+		} else if (!strcmp(tok[0], "HMAC")) {
+			/* HMAC <alg> <keyHex> <dataHex> */
+			size_t l1, l2; unsigned char *k = hx_dec(tok[2], &l1), *d = hx_dec(tok[3], &l2); KSI_CTX *c2 = NULL; KSI_DataHash *h = NULL; int rc; char *ks = malloc(l1 + 1);
+			memcpy(ks, k, l1); ks[l1] = 0; KSI_CTX_new(&c2);
+			rc = KSI_HMAC_create(c2, (KSI_HashAlgorithm)atoi(tok[1]), ks, d, l2, &h);
+			printf("R hmac rc=0x%x", rc);
+			if (rc == KSI_OK) { const unsigned char *imp; size_t il; KSI_DataHash_getImprint(h, &imp, &il); printf(" imprint="); hx_print(imp, il); }
+			printf("\n"); KSI_DataHash_free(h); KSI_CTX_free(c2); free(k); free(d); free(ks);
+		} else if (!strcmp(tok[0], "CONF")) {
+			/* CONF aggr|ext : blocking configuration request */
+			KSI_Config *cfg = NULL; int rc = !strcmp(tok[1], "aggr") ? KSI_receiveAggregatorConfig(ctx, &cfg) : KSI_receiveExtenderConfig(ctx, &cfg);
+			printf("R conf rc=0x%x", rc); if (rc == KSI_OK && cfg != NULL) print_cfg(cfg); printf("\n"); KSI_Config_free(cfg);
+		} else if (!strcmp(tok[0], "NEW")) {
 			int rc;
 			free_all(); reset_net();
 			KSI_CTX_new(&ctx);
 			rc = KSI_SigningAsyncService_new(ctx, &as);
-			if (rc == KSI_OK) rc = KSI_AsyncService_setEndpoint(as, "ksi+tcp://h.example:1", "anon", "anon");
+			if (rc == KSI_OK) rc = KSI_AsyncService_setEndpoint(as, "ksi+tcp://h.example:1", cred_user, cred_key);
 			if (rc == KSI_OK) rc = KSI_AsyncService_setOption(as, KSI_ASYNC_OPT_REQUEST_CACHE_SIZE, (void *)(size_t)atol(tok[1]));
 			KSI_AsyncService_setOption(as, KSI_ASYNC_OPT_SND_TIMEOUT, (void *)(size_t)atol(tok[2]));
 			KSI_AsyncService_setOption(as, KSI_ASYNC_OPT_RCV_TIMEOUT, (void *)(size_t)atol(tok[3]));
@@ -238,8 +257,8 @@ int main(void) {
 			int rc, k; free_all(); reset_net(); interactive = 1;
 			for (k = 0; k < NEP; k++) eps[k].connect_mode = 1;      /* blocking sockets: connect() succeeds unless told otherwise */
 			KSI_CTX_new(&ctx);
-			rc = KSI_CTX_setAggregator(ctx, "ksi+tcp://h0.example:1", "anon", "anon");
-			if (rc == KSI_OK) rc = KSI_CTX_setExtender(ctx, "ksi+tcp://h1.example:1", "anon", "anon");
+			rc = KSI_CTX_setAggregator(ctx, "ksi+tcp://h0.example:1", cred_user, cred_key);
+			if (rc == KSI_OK) rc = KSI_CTX_setExtender(ctx, "ksi+tcp://h1.example:1", cred_user, cred_key);
 			if (n > 1 && rc == KSI_OK) rc = KSI_CTX_setAggregatorHmacAlgorithm(ctx, (size_t)atoi(tok[1]));
 			if (n > 2 && rc == KSI_OK) rc = KSI_CTX_setExtenderHmacAlgorithm(ctx, (size_t)atoi(tok[2]));
 			printf("R bnew rc=%d\n", rc);
@@ -285,7 +304,7 @@ int main(void) {
 			free_all(); reset_net();
 			KSI_CTX_new(&ctx);
 			rc = KSI_SigningHighAvailabilityService_new(ctx, &as);
-			for (k = 0; k < nep && rc == KSI_OK; k++) { char uri[64]; snprintf(uri, sizeof(uri), "ksi+tcp://h%d.example:1", k); rc = KSI_AsyncService_addEndpoint(as, uri, "anon", "anon"); }
+			for (k = 0; k < nep && rc == KSI_OK; k++) { char uri[64]; snprintf(uri, sizeof(uri), "ksi+tcp://h%d.example:1", k); rc = KSI_AsyncService_addEndpoint(as, uri, cred_user, cred_key); }
 			if (rc == KSI_OK) rc = KSI_AsyncService_setOption(as, KSI_ASYNC_OPT_REQUEST_CACHE_SIZE, (void *)(size_t)atol(tok[2]));
 			KSI_AsyncService_setOption(as, KSI_ASYNC_OPT_SND_TIMEOUT, (void *)(size_t)atol(tok[3]));
 			KSI_AsyncService_setOption(as, KSI_ASYNC_OPT_RCV_TIMEOUT, (void *)(size_t)atol(tok[4]));
